@@ -123,6 +123,14 @@ class C11(core.Property):
             l = rng.randint(0, self._nlines(text) + 1)
             ch = rng.choice([rng.randint(0, 16), rng.randint(0, 16), rng.randint(0, 40), 2 ** 31 - 1])
             cases.append({"k": rng.choice(["offset", "word"]), "e": e, "text": text, "l": l, "ch": ch})
+        # a document that is not open (no in-memory source): served from the file, never from stale
+        # state (C10's clause, checked here with C11's queries): query, rewrite the file, query
+        dpool = [0x61, 0x62, 0x5F, 0x20, 0xE9, 0x1F60B, 0x0A, 0x0A]
+        for _ in range(chk.n(150, 1500)):
+            t1 = [rng.choice(dpool) for _ in range(rng.choice([0, 1, 3, 6, 12]))]
+            t2 = [rng.choice(dpool) for _ in range(rng.choice([0, 2, 5, 9, 20]))]
+            cases.append({"k": "disk", "e": rng.choice(ENCS), "text": t1, "text2": t2,
+                          "l": rng.randint(0, 4), "ch": rng.randint(0, 6)})
         # explicit line lists (as user code may pass), longer random lines, ranges, huge positions
         pool = [0x61, 0x62, 0xE9, 0x20AC, 0x1F60B, 0x10000, 0xFFFF, 0x7F, 0x80]
         terms = [[], [10], [13], [13, 10]]
@@ -262,6 +270,25 @@ class C11(core.Property):
                     else:
                         out.append([ord(x) for x in doc.word_at_position(p)])
                     assert (p.line, p.character) == (c["l"], c["ch"]), "position argument modified"
+                elif k == "disk":
+                    from pygls import uris
+                    os.makedirs(os.path.join(core.ROOT, "work", "C11"), exist_ok=True)
+                    path = os.path.join(core.ROOT, "work", "C11", f"disk_{os.getpid()}.txt")
+                    obs = []
+                    try:
+                        doc = None
+                        for t in (c["text"], c["text2"]):
+                            with open(path, "w", encoding="utf-8", newline="") as f:
+                                f.write(tostr(t))
+                            if doc is None:
+                                doc = TextDocument(uris.from_fs_path(path), position_codec=codecs[c["e"]])
+                            p = types.Position(line=c["l"], character=c["ch"])
+                            obs.append([[ord(x) for x in doc.source], [[ord(x) for x in l] for l in doc.lines],
+                                        doc.offset_at_position(p), [ord(x) for x in doc.word_at_position(p)]])
+                    finally:
+                        if os.path.exists(path):
+                            os.remove(path)
+                    out.append(obs)
                 elif k in ("rfrom", "rto"):
                     lines = [tostr(l) for l in c["lines"]]
                     rg = types.Range(start=types.Position(c["l"], c["ch"]), end=types.Position(c["l2"], c["ch2"]))
@@ -284,6 +311,8 @@ class C11(core.Property):
             return f"units {c['e']} {enc_str(c['s'])}"
         if k == "lines":
             return f"lines {enc_str(c['text'])}"
+        if k == "disk":
+            return f"disk {c['e']} {enc_str(c['text'])} {enc_str(c['text2'])} {c['l']} {c['ch']}"
         if k in ("fromt", "tot", "offset", "word"):
             return f"{k} {c['e']} {enc_str(c['text'])} {c['l']} {c['ch']}"
         if k in ("from", "to"):
@@ -304,6 +333,14 @@ class C11(core.Property):
             for _ in range(n):
                 m = next(it); ls.append([next(it) for _ in range(m)])
             return {"M": ls, "S": None, "guard": True}
+        if k == "disk":
+            it = iter(v); obs = []
+            def s_():
+                return [next(it) for _ in range(next(it))]
+            for _ in range(2):
+                t = s_(); ls = [s_() for _ in range(next(it))]; off = next(it); w = s_()
+                obs.append([t, ls, off, w])
+            return {"M": obs, "S": obs, "guard": True, "klass": None}
         if k == "offset":
             m, sd, so, gw, gu = v
             klass = None
@@ -384,7 +421,10 @@ _AST_MOD = "Proofs.AstCodecEquiv"
 # ast_codec_equiv = ast_is_char_equiv /\ ast_utf16_unit_offset_equiv /\ ast_client_num_units_equiv /\
 # ast_position_from_equiv /\ ast_position_to_equiv (one Print Assumptions instead of five)
 C11.obligations = list(C11.obligations) + [_AST_MOD + "::" + n for n in ("ast_codec_equiv", "ast_from_example")]
-C11.coq_targets = list(C11.coq_targets) + ["Proofs/AstCodecEquiv.vo"]
+# the range wrappers; and offset_at_position / word_at_position of text_document.py, translated and LINKED with
+# the translated codec (Gen/AstDoc.v, Proofs/AstDocEquiv.v: equal to Model/DocQuery.v for all inputs)
+C11.obligations += [_AST_MOD + "::ast_range_equiv", "Proofs.AstDocEquiv::ast_doc_query_equiv"]
+C11.coq_targets = list(C11.coq_targets) + ["Proofs/AstCodecEquiv.vo", "Proofs/AstDocEquiv.vo"]
 C11.trusted_base = list(C11.trusted_base) + [
     "translator tie: harness/gen_ast.py (Python ast -> PyMini, fail-closed) and the PyMini semantics "
     "coq/Base/PyMini.v (hand-written meaning of the Python subset; primitives shared with Base/PyStr.v)"]
@@ -400,8 +440,10 @@ def _regenerate(self, chk):
     # translate and compile under the build lock: coq/Gen is shared by concurrent checks that may run
     # against different trees
     with core._Lock("coq"):
-        _gen_c11.main()
-        core._coq_make(["Proofs/AstCodecEquiv.vo"])
+        try:
+            _gen_c11.main()
+        finally:
+            core._coq_make(["Proofs/AstCodecEquiv.vo", "Proofs/AstDocEquiv.vo"])
 
 
 C11.regenerate = _regenerate
